@@ -495,6 +495,53 @@ pub fn write_inputs_file(path: &std::path::Path, inputs: &[String]) -> std::io::
     std::fs::write(path, buf)
 }
 
+/// `kv layoutprobe <file>`: the file holds a source, a byte position `gap` (the start of a token, or 0)
+/// and a run of whitespace / comments; generate(source) and generate(source with the run inserted at
+/// `gap`) must agree (hash line apart, positions >= gap shifted by the run's length).  Runs in its own
+/// process because the run is huge (10^4 .. 10^6 lines): a stack overflow must not take the worker
+/// along.  Prints `BASE <class>` as soon as the plain source is done, then `SAME` or `DIFF <detail>`.
+pub fn layoutprobe_main(path: &str) -> i32 {
+    use std::io::Write;
+    crate::util::install_silent_panic_hook();
+    let bytes = std::fs::read(path).expect("read probe");
+    let mut i = 0;
+    let mut next = || {
+        let n = u32::from_le_bytes(bytes[i..i + 4].try_into().unwrap()) as usize;
+        i += 4;
+        let s = String::from_utf8_lossy(&bytes[i..i + n]).to_string();
+        i += n;
+        s
+    };
+    let src = next();
+    let gap: usize = next().parse().expect("gap");
+    let run = next();
+    let (out, _) = kside::generate(&src, u64::MAX);
+    println!("BASE {}", out.class());
+    let _ = std::io::stdout().flush();
+    let mut big = String::with_capacity(src.len() + run.len());
+    big.push_str(&src[..gap]);
+    big.push_str(&run);
+    big.push_str(&src[gap..]);
+    let (out2, _) = kside::generate(&big, u64::MAX);
+    let shift = |p: usize| Some(if p >= gap { p + run.len() } else { p });
+    let base = render_outcome_for_layout(&out);
+    let expected = match &out {
+        GenOutcome::Err(KikiErr::Parse(s, content, e)) => Ok(format!(
+            "{:?}",
+            KikiErr::Parse(kiki::ByteIndex(shift(s.0).unwrap()), content.clone(), kiki::ByteIndex(shift(s.0).unwrap() + (e.0 - s.0)))
+        )),
+        GenOutcome::Err(_) => map_byte_indices(&base, shift),
+        _ => Ok(base.clone()),
+    };
+    let got = render_outcome_for_layout(&out2);
+    match expected {
+        Ok(e) if e == got => println!("SAME"),
+        Ok(e) => println!("DIFF expected {:?} got {:?}", crate::util::truncate(&e, 300), crate::util::truncate(&got, 300)),
+        Err(_) => println!("UNMAPPABLE"),
+    }
+    0
+}
+
 /// `kv digest <file>`: print one digest per input (separate process => separate hash seeds).
 pub fn digest_main(path: &str) -> i32 {
     crate::util::install_silent_panic_hook();
@@ -994,8 +1041,59 @@ impl Text {
         }
     }
 
+    /// A huge run of whitespace / comments in one gap of the source, in a child process.
+    fn c16_huge_trivia(&self, w: &mut Worker, rng: &mut Rng, src: &str) {
+        // the gap: the very start, or the start of a token that is separated from its predecessor
+        let (toks, _) = rlex::lex_partial(src);
+        let mut gaps = vec![0usize];
+        for pair in toks.windows(2) {
+            if pair[0].end < pair[1].start {
+                gaps.push(pair[1].start);
+            }
+        }
+        let gap = *rng.pick(&gaps);
+        let lines = *rng.pick(&[10_000usize, 30_000, 100_000, 400_000, 1_000_000]);
+        let unit = rng.pick_str(&["//\n", "// c\n", "//\r\n", "\n", " ", "\u{2003}", " // é\n", "\t//x\n\n", "\r\n"]);
+        let mut run = unit.repeat(lines);
+        run.push('\n');
+        let path = w.scratch.join(format!("c16-probe-{}.bin", w.shard));
+        if write_inputs_file(&path, &[src.to_string(), gap.to_string(), run.clone()]).is_err() {
+            w.inconclusive("cannot write the layout probe");
+            return;
+        }
+        let exe = std::env::current_exe().expect("current_exe");
+        let mut cmd = std::process::Command::new(exe);
+        cmd.arg("layoutprobe").arg(&path).stdin(std::process::Stdio::null()).stdout(std::process::Stdio::piped()).stderr(std::process::Stdio::piped());
+        crate::util::limit_cpu_and_memory(&mut cmd, 300, 8 << 30);
+        let Ok(o) = cmd.output() else {
+            w.inconclusive("cannot run the layout probe");
+            return;
+        };
+        let stdout = String::from_utf8_lossy(&o.stdout).to_string();
+        let stderr = String::from_utf8_lossy(&o.stderr).to_string();
+        let witness = json!({"source": src, "gap_at_byte": gap, "inserted_run": format!("{:?} x {lines}", unit), "child_stdout": crate::util::truncate(&stdout, 800), "child_stderr_tail": crate::util::truncate(&stderr, 400)});
+        w.eval();
+        w.count("huge-trivia-probes");
+        w.max("max-inserted-trivia-bytes", run.len() as u64);
+        if stdout.contains("\nSAME") || stdout.starts_with("SAME") {
+            return;
+        }
+        if stdout.contains("DIFF ") {
+            w.violation("layout-changes-result:huge-trivia-run", "inserting a long run of whitespace / comments between two tokens changed the result", witness);
+        } else if stdout.contains("BASE ") && !o.status.success() && (stderr.contains("overflowed its stack") || stderr.contains("stack overflow")) {
+            // the plain source was answered, the same tokens behind the run kill the process
+            w.violation("layout-changes-result:huge-trivia-run:stack-overflow", "the source is answered, the same tokens with a long run of whitespace / comments inserted overflow the stack", witness);
+        } else {
+            // out of memory, CPU budget, anything else: not a verdict
+            w.inconclusive(&format!("layout probe ended without a verdict: status {:?}, stdout {:?}", o.status, crate::util::truncate(&stdout, 120)));
+        }
+    }
+
     fn c16(&self, w: &mut Worker, rng: &mut Rng, n: u64) {
         let (class, src) = any_source(rng, w.seed, n);
+        if n % 211 == 5 && src.len() < 200_000 {
+            self.c16_huge_trivia(w, rng, &src);
+        }
         let (out, _) = kside::generate(&src, 50_000_000);
         if let GenOutcome::Panic(_) = out {
             w.count("masked_upstream:panic");
@@ -1089,7 +1187,7 @@ impl Engine for Text {
             "C13" => "inputs: generated grammars whose terminals have random payload types from the Kiki type grammar (unit, paths of 1-6 segments, generics nested to depth 8 with 1-4 arguments, unit as argument) written with random whitespace / comments between their tokens. One evaluation = one emitted module: at every use site (terminal enum variant, every struct / variant field of that terminal, node enum variant, try_into_* return type) the emitted type, re-tokenised, must equal the declared token sequence. Distinct non-trivial = distinct type expressions.".into(),
             "C14" => "inputs: sources of every class (accepted grammars incl. the repository examples, conflicting grammars, every validation error, parse errors, lexical errors). One evaluation = one call of generate; every input is run 8 times in one process on 8 fresh threads (fresh SipHash keys per HashMap; odd runs go through the batch of 16 inputs backwards and one run calls every input twice in a row, so a dependence on earlier calls is visible), 4 more times on 4 threads running at the same time (each starting at another offset of the batch, one of them also calling get_grammar_hash: state shared between concurrent calls) and once in each of 2 further processes; the bytes of Ok results / the {:?} of errors (positions and attached automaton included) must be identical. A canary HashSet iterated in every run records how many distinct hash orders were actually sampled. Distinct non-trivial = distinct inputs that reach the automaton construction (Ok or TableConflict).".into(),
             "C15" => "inputs: (a) accepted sources with / without trailing newline, CRLF, non-ASCII, leading comment up to 60 KB: the emitted text must start with a // block containing `// @sha256 ` + the SHA-256 of the source computed by an independent implementation, get_grammar_hash must return exactly that digest, and the build-script freshness test (stored digest == digest of current file) must accept the same text and reject a text differing in one byte; (b) header-like texts assembled from fragments (//, `// @sha256 `, repeated prefixes, CR, CRLF, blank and non-comment lines, Unicode): get_grammar_hash vs the rule in the property statement. One evaluation = one text. Distinct non-trivial = distinct texts.".into(),
-            _ => "inputs: sources of every class (accepted, conflicting, every validation error, parse errors, lexical errors - there only the text before the offending lexeme is re-laid-out), each re-joined up to 6 times from the reference lexer's tokens with random separators: nothing where legal, any Unicode whitespace, LF / CRLF, // comments with arbitrary content, comment at the end without newline, everything on one line; validity of the re-layout (same kinds and texts) is re-checked with the reference lexer. One evaluation = one (source, re-layout) pair: Ok outputs must be identical outside the `// @sha256` line, errors identical after mapping every byte position through the token-start map. Distinct non-trivial = distinct sources with at least one re-layout.".into(),
+            _ => "inputs: sources of every class (accepted, conflicting, every validation error, parse errors, lexical errors - there only the text before the offending lexeme is re-laid-out), each re-joined up to 6 times from the reference lexer's tokens with random separators: nothing where legal, any Unicode whitespace, LF / CRLF, // comments with arbitrary content, comment at the end without newline, everything on one line; every 211th source additionally gets one HUGE run (10^4 .. 10^6 comment lines, blank lines, spaces ...) inserted in one gap, run in a child process; validity of the re-layout (same kinds and texts) is re-checked with the reference lexer. One evaluation = one (source, re-layout) pair: Ok outputs must be identical outside the `// @sha256` line, errors identical after mapping every byte position through the token-start map. Distinct non-trivial = distinct sources with at least one re-layout.".into(),
         }
     }
     fn floors(&self, prop: &str, _tier: Tier, agg: &Agg) -> Vec<String> {
